@@ -674,7 +674,7 @@ def ceLcp (data : List Byte) (w ws : Nat) : Array Nat :=
 def ceMaxLcp (data : List Byte) (w ws : Nat) : Nat := (ceLcp data w ws).foldl max 0
 def ceMaxLen (data : List Byte) (w ws maxMatch : Nat) : Nat := min (ceMaxLcp data w ws) maxMatch
 def ceSegs (data : List Byte) (w ws minMatch maxMatch : Nat) : Option (List Callback) :=
-  segments (saSpec (ceT data w ws)).toArray.size (ceLcp data w ws) (minMatch : Int)
+  segments32 (saSpec (ceT data w ws)).toArray.size (ceLcp data w ws) (minMatch : Int)
     (ceMaxLen data w ws maxMatch : Int)
 
 theorem computeEdges_some (data : List Byte) (w ws minMatch maxMatch : Nat) (hne : data.length ≠ 0)
@@ -715,10 +715,16 @@ theorem segments_lt {saLen : Nat} {lcp : Array Nat} {minLen maxLen : Int} {cbs :
   · cases h
   · split at h
     · cases h
-    · split at h
-      · cases h
-      · rw [if_pos (Or.inl hlt)] at h
-        exact (Option.some.inj h).symm
+    · rw [if_pos (Or.inl hlt)] at h
+      exact (Option.some.inj h).symm
+
+theorem ceSegs_lt {data : List Byte} {w ws minMatch maxMatch : Nat} {cbs : List Callback}
+    (hlt : ceMaxLen data w ws maxMatch < minMatch)
+    (h : ceSegs data w ws minMatch maxMatch = some cbs) : cbs = [] := by
+  unfold ceSegs segments32 at h
+  split at h
+  · cases h
+  · exact segments_lt (by omega) h
 
 /-- the counter is 0 only if nothing was stored -/
 theorem edgeCallback_cnt (ws : Nat) (woff : Int) (m : Nat) : ∀ (desc : List Nat) (edges : Array (List Edge)) (cnt : Nat),
@@ -817,7 +823,7 @@ theorem computeEdges_cases {data : List Byte} {w ws minMatch maxMatch : Nat}
       cases hseg : ceSegs data w ws minMatch maxMatch with
       | none => rw [computeEdges_none _ _ _ _ _ (Or.inr hseg)]; exact replicate_getD_nil _ _
       | some cbs =>
-        have : cbs = [] := segments_lt (by omega) hseg
+        have : cbs = [] := ceSegs_lt (by omega) hseg
         subst this
         rw [computeEdges_some _ _ _ _ _ hne hseg]
         exact replicate_getD_nil _ _
